@@ -78,8 +78,37 @@ fn payload(kind: &str, i: usize, len: usize, x: &mut u64) -> Vec<u8> {
                 vec![b'b'; len]
             }
         }
+        // HTTP/2 DATA frames on stream 1 (after a connection start supplied as `hex`)
+        "h2_data" => {
+            let n = len - 9;
+            let mut s = vec![(n >> 16) as u8, (n >> 8) as u8, n as u8, 0, 0, 0, 0, 0, 1];
+            s.extend((0..n).map(|_| rnd() as u8));
+            s
+        }
+        // small complete HEADERS frames (indexed fields only) on ever new streams, packed into the segment
+        "h2_headers" => {
+            let mut s = vec![];
+            let mut k = 0u32;
+            while s.len() + 13 <= len {
+                let st = (2 * (i as u32 * 200 + k) + 1) & 0x7fff_ffff;
+                s.extend_from_slice(&[0, 0, 4, 1, 5, (st >> 24) as u8, (st >> 16) as u8, (st >> 8) as u8, st as u8, 0x82, 0x86, 0x84, 0x41 & 0x7f]);
+                k += 1;
+            }
+            s
+        }
+        "bytes_b" => vec![b'b'; len],
+        "zeros" => vec![0u8; len],
         k => panic!("kind {k}"),
     }
+}
+
+struct Step {
+    server: bool,
+    hex: Option<Vec<u8>>,
+    kind: String,
+    n: usize,
+    len: usize,
+    retx: bool,
 }
 
 pub fn run(input: &mut dyn BufRead, out: &mut dyn Write, _args: &[String]) -> R {
@@ -93,7 +122,7 @@ pub fn run(input: &mut dyn BufRead, out: &mut dyn Write, _args: &[String]) -> R 
         let stop_retained = v["stop_retained"].as_u64().unwrap_or(u64::MAX) as usize;
         let stop_alloc = v["stop_alloc"].as_u64().unwrap_or(u64::MAX) as usize;
         let r = guarded(|| -> Value {
-            let mut seed = 0x9e37_79b9_7f4a_7c15u64 ^ (u(&v["seed"]) + 1);
+            let seed = 0x9e37_79b9_7f4a_7c15u64 ^ (u(&v["seed"]) + 1);
             // analyzers' per-instance state, exactly the tables the crates' front ends own
             let mut tracker: TtlCache<huginn_net_tcp::ConnectionKey, huginn_net_tcp::TcpTimestamp> = TtlCache::new(cap);
             let mut flows: TtlCache<huginn_net_http::http_process::FlowKey, huginn_net_http::http_process::TcpFlow> = TtlCache::new(cap);
@@ -101,55 +130,96 @@ pub fn run(input: &mut dyn BufRead, out: &mut dyn Write, _args: &[String]) -> R 
             let mut tls: TtlCache<huginn_net_tls::FlowKey, huginn_net_tls::tls_client_hello_reader::TlsClientHelloReader> = TtlCache::new(cap);
             let db = huginn_net_db::Database::load_default().expect("db");
             let mut uni = huginn_net::HuginnNet::new(Some(&db), cap, None).expect("unified");
+            // the script: the old single-kind form, or an explicit list of steps (direction, fixed payload or generated kind,
+            // repetitions, retransmission = the sequence number does not advance)
+            let steps: Vec<Step> = match v.get("script") {
+                Some(sc) if sc.is_array() => arr(sc)
+                    .iter()
+                    .map(|st| Step {
+                        server: st["dir"].as_str() == Some("s"),
+                        hex: st.get("hex").and_then(|h| h.as_str()).map(hex),
+                        kind: st.get("kind").and_then(|k| k.as_str()).unwrap_or("").to_string(),
+                        n: st["n"].as_u64().unwrap_or(1) as usize,
+                        len: st["len"].as_u64().unwrap_or(len as u64) as usize,
+                        retx: st["retx"].as_bool().unwrap_or(false),
+                    })
+                    .collect(),
+                _ => vec![Step { server: dir_server, hex: None, kind: kind.clone(), n: nseg, len, retx: false }],
+            };
             let base_live = crate::alloc_count::live();
             let mut events: Vec<Value> = vec![];
             let mut maxima = (0usize, 0usize);
             let t0 = std::time::Instant::now();
-            'outer: for i in 0..nseg + 1 {
-                for c in 0..nconn {
-                    let (cip, sip) = ([10, 70, (c >> 8) as u8, c as u8], [10, 80, 0, 1]);
-                    let (cp, sp) = (20000 + (c % 40000) as u16, if krate == "tls" || kind.starts_with("tls") { 443 } else { 80 });
-                    let f = if i == 0 {
-                        frame(cip, sip, cp, sp, 1000, 0x02, &[], (i * nconn + c) as u16)
-                    } else {
-                        let p = payload(&kind, i - 1, len, &mut seed);
-                        let seq = 1001u32.wrapping_add(((i - 1) * len) as u32);
-                        if dir_server {
-                            frame(sip, cip, sp, cp, seq, 0x18, &p, (i * nconn + c) as u16)
-                        } else {
-                            frame(cip, sip, cp, sp, seq, 0x18, &p, (i * nconn + c) as u16)
+            let sp = if krate == "tls" || kind.starts_with("tls") || v["port"].as_u64() == Some(443) { 443 } else { 80 };
+            let mut idx = 0usize;
+            let (mut cseq, mut sseq) = (1001u32, 5001u32);
+            // packet 0: the SYN of every connection
+            let mut plan: Vec<(bool, Vec<u8>, u32, u8)> = vec![(false, vec![], 1000, 0x02)];
+            let mut gen_seed = seed;
+            let total_steps: usize = steps.iter().map(|s| s.n).sum();
+            let mut feed = |plan: &mut Vec<(bool, Vec<u8>, u32, u8)>, events: &mut Vec<Value>, maxima: &mut (usize, usize), idx: &mut usize| -> bool {
+                for (server, p, seq, flags) in plan.drain(..) {
+                    let i = *idx;
+                    for c in 0..nconn {
+                        let (cip, sip) = ([10, 70, (c >> 8) as u8, c as u8], [10, 80, 0, 1]);
+                        let cp = 20000 + (c % 40000) as u16;
+                        let f = if server { frame(sip, cip, sp, cp, seq, flags, &p, (i * nconn + c) as u16) } else { frame(cip, sip, cp, sp, seq, flags, &p, (i * nconn + c) as u16) };
+                        let flen = f.len();
+                        let before_total = crate::alloc_count::total();
+                        match krate.as_str() {
+                            "tcp" => {
+                                let _ = crate::m_tcp::one(&f, &mut tracker, None);
+                            }
+                            "http" => {
+                                let _ = crate::m_http::packet(&f, &mut flows, &procs);
+                            }
+                            "tls" => {
+                                let _ = crate::m_tls::packet(&f, &mut tls);
+                            }
+                            "uni" => {
+                                let _ = uni.analyze_tcp(&f);
+                            }
+                            k => panic!("crate {k}"),
                         }
+                        let allocated = crate::alloc_count::total() - before_total;
+                        let retained = crate::alloc_count::live().saturating_sub(base_live);
+                        *maxima = (maxima.0.max(retained), maxima.1.max(allocated));
+                        // every event is recorded up to 64 segments, then at exponentially spaced indices and whenever a bound is exceeded
+                        let over = retained > stop_retained || allocated > stop_alloc;
+                        if i <= 64 || (i & (i - 1)) == 0 || i == total_steps || over {
+                            events.push(json!({"conn": c, "idx": i, "len": flen, "retained": retained, "allocated": allocated}));
+                        }
+                        if over {
+                            return false; // the excess is the finding; continuing would only burn time
+                        }
+                    }
+                    *idx += 1;
+                }
+                true
+            };
+            let mut go = feed(&mut plan, &mut events, &mut maxima, &mut idx);
+            'outer: for st in &steps {
+                for k in 0..st.n {
+                    if !go {
+                        break 'outer;
+                    }
+                    let p = match &st.hex {
+                        Some(h) => h.clone(),
+                        None => payload(&st.kind, k, st.len, &mut gen_seed),
                     };
-                    let flen = f.len();
-                    let before_total = crate::alloc_count::total();
-                    match krate.as_str() {
-                        "tcp" => {
-                            let _ = crate::m_tcp::one(&f, &mut tracker, None);
+                    let seq = if st.server { sseq } else { cseq };
+                    if !st.retx {
+                        if st.server {
+                            sseq = sseq.wrapping_add(p.len() as u32);
+                        } else {
+                            cseq = cseq.wrapping_add(p.len() as u32);
                         }
-                        "http" => {
-                            let _ = crate::m_http::packet(&f, &mut flows, &procs);
-                        }
-                        "tls" => {
-                            let _ = crate::m_tls::packet(&f, &mut tls);
-                        }
-                        "uni" => {
-                            let _ = uni.analyze_tcp(&f);
-                        }
-                        k => panic!("crate {k}"),
                     }
-                    let allocated = crate::alloc_count::total() - before_total;
-                    let retained = crate::alloc_count::live().saturating_sub(base_live);
-                    maxima = (maxima.0.max(retained), maxima.1.max(allocated));
-                    // every event is recorded up to 64 segments, then at exponentially spaced indices and whenever a bound is exceeded
-                    let over = retained > stop_retained || allocated > stop_alloc;
-                    if i <= 64 || (i & (i - 1)) == 0 || i == nseg || over {
-                        events.push(json!({"conn": c, "idx": i, "len": flen, "retained": retained, "allocated": allocated}));
-                    }
-                    if over {
-                        break 'outer; // the excess is the finding; continuing would only burn time
-                    }
+                    plan.push((st.server, p, seq, 0x18));
+                    go = feed(&mut plan, &mut events, &mut maxima, &mut idx);
                 }
             }
+            let _ = seed;
             json!({"events": events, "max_retained": maxima.0, "max_allocated": maxima.1, "wall_ms": t0.elapsed().as_millis() as u64})
         });
         let o = match r {
